@@ -1326,6 +1326,11 @@ export class TupleRuntype extends BaseRuntype {
           popPath(ctx);
         }
       }
+    } else if (input.length > idx) {
+      // validate() rejects surplus items of a closed tuple: name the first one
+      pushPath(ctx, `[${idx}]`);
+      acc.push(...buildError(ctx, `expected tuple of ${this.prefix.length} items, found an extra item`, input[idx]));
+      popPath(ctx);
     }
 
     return acc;
